@@ -41,6 +41,28 @@ const (
 	sIface  = "Iface"
 )
 
+// symField makes a Go field name usable inside an SMT-LIB symbol (generated annotation fields start with a Greek capital lambda).
+func symField(f string) string {
+	ascii := true
+	for _, r := range f {
+		if r > 127 {
+			ascii = false
+		}
+	}
+	if ascii {
+		return f
+	}
+	var b strings.Builder
+	for _, r := range f {
+		if r > 127 {
+			fmt.Fprintf(&b, "u%04x", r)
+		} else {
+			b.WriteRune(r)
+		}
+	}
+	return b.String()
+}
+
 func sanitize(s string) string {
 	var b strings.Builder
 	for _, r := range s {
@@ -53,6 +75,8 @@ func sanitize(s string) string {
 			b.WriteString("_L")
 		case r == ']':
 			b.WriteString("R_")
+		case r > 127:
+			fmt.Fprintf(&b, "u%04x", r)
 		default:
 			b.WriteString("_")
 		}
@@ -138,6 +162,9 @@ func (tt *TypeTable) sortOf(t types.Type) string {
 	if isBufferType(t) {
 		return sString
 	}
+	if isReflectValue(t) {
+		return sIface // reflect mini-model: a Value is the interface value it wraps
+	}
 	switch u := t.Underlying().(type) {
 	case *types.Basic:
 		switch {
@@ -204,7 +231,7 @@ func (tt *TypeTable) structSort(t types.Type, u *types.Struct) string {
 }
 
 func (tt *TypeTable) fieldAcc(structT types.Type, field string) string {
-	return "f!" + tt.key(structT) + "!" + field
+	return "f!" + tt.key(structT) + "!" + symField(field)
 }
 
 // tid returns the type id (as SMT Int literal) for a dynamic type.
